@@ -260,6 +260,25 @@ let q_spell (it : item) : string =
   | Err e, _ | _, Err e -> "generr:" ^ gerr_name e
   | _ -> "genpanic"
 
+(* structural summary of the model's from_str_code, in the format harness/genprobe prints for the REAL tokens *)
+let q_struct (k : int) (it : item) (args : string list) : string =
+  match args with
+  | ["EnumString"] ->
+    res_str (fun c ->
+      let tgt (v, ps) = Printf.sprintf "v%d%s" (i_nat v) (params_str ps) in
+      let phf = List.map (fun (key, t) -> hex_of_str key ^ ":" ^ tgt t) c.fs_phf in
+      let arms = List.map (function
+        | ArmExact (l, v, ps) -> "E:" ^ hex_of_str l ^ ":" ^ tgt (v, ps)
+        | ArmGuard (l, v, ps) -> "G:" ^ hex_of_str l ^ ":" ^ tgt (v, ps)) c.fs_arms in
+      let fall = (match c.fs_fall with
+        | FNotFound -> "notfound"
+        | FCustom f -> "custom:" ^ string_of_str f
+        | FDefault (v, None) -> Printf.sprintf "default:v%d" (i_nat v)
+        | FDefault (v, Some n) -> Printf.sprintf "default:v%d:%s" (i_nat v) (string_of_str n)) in
+      Printf.sprintf "phf=[%s]|arms=[%s]|fall=%s|errty=%s|tryfrom=delegates" (String.concat ";" phf) (String.concat ";" arms) fall
+        (if c.fs_custom_err then "custom" else "strum")) (memo fs_cache k (fun () -> gen_from_str it))
+  | _ -> failwith "no structural summary for this derive"
+
 (* ----- Display & co ----- *)
 let parse_spec (args : string list) : fspec =
   match args with
@@ -710,6 +729,7 @@ let rec dispatch (k : int) (it : item) (kind : string) (args : string list) : st
   | "discr" -> q_discr it
   | "fromstr" -> q_fromstr k it args
   | "spell" -> q_spell it
+  | "struct" -> q_struct k it args
   | "display" -> q_display k it args
   | "asref" -> q_asref k it args
   | "intostatic" | "asstatic" -> q_intostatic k it args
